@@ -191,6 +191,9 @@ def spec_resurrect(row):
                 probs.append("dead object still dead after resurrect")
             if post["colour"] == "B" and row.pre["nt"] == 1:
                 probs.append("resurrected tracing object blackened without queueing: its closure is not marked")
+            if not (list(out.post["gray"]) + list(out.post["gray_again"])):
+                probs.append("reviving a dead object leaves no pending mark work: the arena keeps reporting "
+                             "Marked instead of Marking")
         if ("ctx", "root_needs_trace") in diff(row, out):
             probs.append("root flag changed")
     return probs
@@ -538,4 +541,142 @@ def spec_drop_all(row):
             if freed < n - panicked:
                 probs.append("only %d of %d blocks released after %d destructor panic(s): the walk did not resume" % (
                     freed, n, panicked))
+    return probs
+
+
+# ---------------------------------------------------------------------------------------------- weak / finalization API
+
+def spec_weak_upgrade(row):
+    """GcWeak::upgrade == Some(the same object) iff live ∧ ¬(Sweep ∧ WhiteWeak); pure."""
+    probs = one_normal(row)
+    pre = row.pre
+    ok = pre["live"] == 1 and not (pre["phase"] == "Sweep" and pre["colour"] == "WW")
+    for out in row.outs:
+        probs += common_mutator(row, out)
+        if diff(row, out):
+            probs.append("upgrade changed collector state")
+        if ok and out.ret != ("Some", ("obj", 1)):
+            probs.append("returned %s for an upgradable target (must be Some(target))" % (out.ret,))
+        if not ok and out.ret != "None":
+            probs.append("returned %s for a destructed / condemned target" % (out.ret,))
+        if out.has("value_ref") or out.has("deref_of_dead_value"):
+            probs.append("weak query touches the value, not only the header")
+    return probs
+
+
+def spec_weak_is_dropped(row):
+    probs = one_normal(row)
+    want = 0 if row.pre["live"] == 1 else 1
+    for out in row.outs:
+        probs += common_mutator(row, out)
+        if diff(row, out):
+            probs.append("is_dropped changed state")
+        if out.ret != want:
+            probs.append("is_dropped returned %s for live=%s" % (out.ret, row.pre["live"]))
+        if out.has("value_ref"):
+            probs.append("weak query touches the value, not only the header")
+    return probs
+
+
+def spec_is_dead(row):
+    """is_dead == colour ∈ {White, WhiteWeak} (S8)."""
+    probs = one_normal(row)
+    want = 1 if row.pre["colour"] in WHITE else 0
+    for out in row.outs:
+        probs += common_mutator(row, out)
+        if diff(row, out):
+            probs.append("is_dead changed state")
+        if out.ret != want:
+            probs.append("is_dead returned %s for colour %s" % (out.ret, row.pre["colour"]))
+        if out.has("value_ref"):
+            probs.append("query touches the value, not only the header")
+    return probs
+
+
+def spec_weak_resurrect(row):
+    """GcWeak::resurrect: None exactly for destructed targets; otherwise Some(target) and the target is
+    marked (Gray+queued, or Black for non-tracing types)."""
+    probs = one_normal(row)
+    pre = row.pre
+    for out in row.outs:
+        if pre["live"] == 0:
+            probs += common_mutator(row, out)
+            if out.ret != "None":
+                probs.append("returned %s for a destructed target" % (out.ret,))
+            if diff(row, out):
+                probs.append("state changed for a destructed target")
+            continue
+        if pre["phase"] != "Mark":
+            continue  # Finalization only exists while Marked
+        probs += common_mutator(row, out)
+        if out.ret != ("Some", ("obj", 1)):
+            probs.append("returned %s for a live target" % (out.ret,))
+        post = out.post["objs"][1]
+        if post["colour"] in WHITE:
+            probs.append("target still dead after resurrect")
+        if post["colour"] == "B" and pre["nt"] == 1 and pre["colour"] in WHITE:
+            probs.append("resurrected tracing object blackened without queueing")
+    return probs
+
+
+def spec_adopt(row):
+    """Sanctioned adoption paths: when the path may have stored into / handed out write access to the
+    parent object while marking, the parent is not left Black (or, for stash, the child not condemned)."""
+    probs = one_normal(row)
+    pre = row.pre
+    for out in row.outs:
+        probs += common_mutator(row, out, allow_panic=True)
+        for e in out.panics():
+            if not str(e[1]).startswith("user ") and e[1] != "callback":
+                probs.append("path panics: %s" % (e,))
+        probs += only_colour_moves(row, out, {1: set(REGRAY)})
+        if out.kind != "return":
+            continue
+        stored = out.has("cell_store") or getattr(row, "ret_write", False) or out.has("unlocked")
+        if out.has("once_already_init") or out.ret == "Err" or (isinstance(out.ret, tuple) and out.ret[0] == "Err"):
+            stored = out.has("cell_store")
+        if pre["phase"] != "Mark" or pre["Pnt"] == 0 or not stored:
+            continue
+        p_post = out.post["objs"][1]["colour"]
+        if "C" in pre:
+            c_post = out.post["objs"][2]["colour"]
+            if p_post == "B" and c_post in WHITE:
+                probs.append("%s: the set object stays Black while the stashed pointer is %s" % (pre["path"], c_post))
+            adds = [e for e in out.ev if e[0] == "cell_store" and e[1] == "Slots::add"]
+            if not adds or adds[0][2] != 2:
+                probs.append("%s: the pointer recorded in the slot table is not the stashed one" % pre["path"])
+        else:
+            if p_post == "B":
+                probs.append("%s: write access / store without a barrier: the parent stays Black and may hold "
+                             "an untraced child" % pre["path"])
+    return probs
+
+
+def spec_root_paths(row):
+    """Root-mutating entry points flag the root before the callback runs; read-only ones change nothing."""
+    probs = one_normal(row)
+    pre = row.pre
+    mutating = pre["path"] in ("Arena::mutate_root", "Arena::map_root", "Arena::try_map_root")
+    for out in row.outs:
+        cbs = [e for e in out.ev if e[0] == "callback"]
+        if len(cbs) != 1:
+            probs.append("callback invoked %d time(s)" % len(cbs))
+            continue
+        for name in ("dropped", "freed", "trace_value", "user_trace"):
+            if out.has(name):
+                probs.append("event %s around a callback" % name)
+        if cbs[0][1] != pre["phase"]:
+            probs.append("phase changed before the callback")
+        if mutating and pre["phase"] == "Mark" and cbs[0][2] != 1:
+            probs.append("%s: callback runs with the root not flagged for re-tracing while marking" % pre["path"])
+        if not mutating and cbs[0][2] != pre["flag"]:
+            probs.append("%s: root flag changed" % pre["path"])
+        failed = out.kind != "return" or out.ret == "Err" or (isinstance(out.ret, tuple) and out.ret[0] == "Err")
+        consumed = failed and pre["path"] in ("Arena::map_root", "Arena::try_map_root")
+        if consumed:
+            continue  # the by-value arena is destroyed while unwinding (C11: everything is released)
+        if out.post["phase"] != pre["phase"]:
+            probs.append("phase changed by a callback-taking function")
+        if out.post["root_needs_trace"] == 0 and cbs[0][2] == 1:
+            probs.append("root flag cleared after the callback")
     return probs
